@@ -279,17 +279,31 @@ func (fg *FG) heap(st *State, family, sort string) string {
 
 // wfTerm returns the well-typedness formula of a term of Go type t ("" if trivially true).
 func (fg *FG) wfTerm(t types.Type, term string, depth int, alloc string) string {
+	return fg.wfTermG(t, term, depth, alloc, "")
+}
+
+// wfTermG: guard (when non-empty) restricts the closedness facts (references below the allocation
+// pointer) to cells of objects that are themselves allocated: unallocated memory is arbitrary, and a
+// callee's fresh objects "already had" their final contents there.
+func (fg *FG) wfTermG(t types.Type, term string, depth int, alloc string, guard string) string {
 	if depth > 3 {
 		return ""
 	}
 	t = types.Unalias(t)
 	if f := fg.sorts.rangeFact(t, term); f != "" {
 		if alloc != "" {
+			var closed string
 			switch t.Underlying().(type) {
 			case *types.Pointer, *types.Map, *types.Chan:
-				f = fmt.Sprintf("(and %s (< %s %s))", f, term, alloc)
+				closed = fmt.Sprintf("(< %s %s)", term, alloc)
 			case *types.Slice:
-				f = fmt.Sprintf("(and %s (< (s.arr %s) %s))", f, term, alloc)
+				closed = fmt.Sprintf("(< (s.arr %s) %s)", term, alloc)
+			}
+			if closed != "" {
+				if guard != "" {
+					closed = fmt.Sprintf("(=> %s %s)", guard, closed)
+				}
+				f = fmt.Sprintf("(and %s %s)", f, closed)
 			}
 		}
 		return f
@@ -298,7 +312,7 @@ func (fg *FG) wfTerm(t types.Type, term string, depth int, alloc string) string 
 		sn := fg.sorts.sortOf(t)
 		var parts []string
 		for i := 0; i < s.NumFields(); i++ {
-			if f := fg.wfTerm(s.Field(i).Type(), fmt.Sprintf("(%s %s)", fg.sorts.fieldAcc(sn, s, i), term), depth+1, alloc); f != "" {
+			if f := fg.wfTermG(s.Field(i).Type(), fmt.Sprintf("(%s %s)", fg.sorts.fieldAcc(sn, s, i), term), depth+1, alloc, guard); f != "" {
 				parts = append(parts, f)
 			}
 		}
@@ -319,13 +333,13 @@ func (fg *FG) typedHeap(name, family, alloc string) {
 	}
 	var ax string
 	if strings.HasPrefix(family, "E_") {
-		f := fg.wfTerm(t, fmt.Sprintf("(select (select %s a) x)", name), 0, alloc)
+		f := fg.wfTermG(t, fmt.Sprintf("(select (select %s a) x)", name), 0, alloc, fmt.Sprintf("(< a %s)", alloc))
 		if f == "" {
 			return
 		}
 		ax = fmt.Sprintf("(assert (forall ((a Int) (x Int)) (! %s :pattern ((select (select %s a) x)))))", f, name)
 	} else {
-		f := fg.wfTerm(t, fmt.Sprintf("(select %s r)", name), 0, alloc)
+		f := fg.wfTermG(t, fmt.Sprintf("(select %s r)", name), 0, alloc, fmt.Sprintf("(< r %s)", alloc))
 		if f == "" {
 			return
 		}
